@@ -668,7 +668,7 @@ def judge_b(ctx: Ctx, sc: dict[str, Any], raise_at: int | None, swallow: bool, r
     how = "clean" if res["boom"] is None else f"on_log-raises@{res['boom']}"
     if res["boom"] is None and sc["consume"] != "all" and sc["consume"][2] == "drop":
         how = "abandoned"
-    klass = f"{sc['fam']}:{how}"
+    klass = f"{'unary' if sc['fam'] == 'unary' else 'stream'}:{how}"
     bad = None
     if res["probe"] != [4242, 17]:
         bad = f"the next borrower's probes returned {res['probe']!r} instead of [4242, 17]"
